@@ -187,8 +187,27 @@ func (cc *chainCtx) judgeTx(res *ctypes.ResultTx, proved bool) judgement {
 	if ht == nil {
 		return bad("height", "tx claimed at height %d which the chain does not have", res.Height)
 	}
-	if int(res.Index) >= len(ht.Block.Data.Txs) {
-		return bad("index", "tx claimed at index %d of a block with %d txs", res.Index, len(ht.Block.Data.Txs))
+	if proved {
+		// An otherwise exact proof of a genuine position g whose (index,total) were replaced by a pair with
+		// the same root-path shape is what merkle.Proof.Verify cannot tell apart (C10 S2): name that
+		// mechanism, whatever position the answer then claims (possibly one the block does not have).
+		p := res.Proof.Proof
+		n := int64(len(ht.TxHashes))
+		if bytes.Equal(res.Proof.Data, res.Tx) && bytes.Equal(res.Proof.RootHash, ht.Block.DataHash) {
+			for g := int64(0); g < n; g++ {
+				if (p.Index != g || p.Total != n) && bytes.Equal(ht.Block.Data.Txs[g], res.Tx) &&
+					ref.ProofOK(ht.TxHashes, ref.Sha256(res.Tx), g, n, p.LeafHash, p.Aunts) {
+					s1, ok1 := ref.PathShape(g, n)
+					s2, ok2 := ref.PathShape(p.Index, p.Total)
+					if ok1 && ok2 && s1 == s2 {
+						return bad("proof-shape-alias", "proof claims (index,total)=(%d,%d) (answer index %d) for the tx at (%d,%d): same path shape", p.Index, p.Total, res.Index, g, n)
+					}
+				}
+			}
+		}
+	}
+	if int64(res.Index) >= int64(len(ht.Block.Data.Txs)) {
+		return bad("nonexistent-position", "tx claimed at index %d of a block with %d txs", res.Index, len(ht.Block.Data.Txs))
 	}
 	canon := ht.Block.Data.Txs[res.Index]
 	if !bytes.Equal(res.Tx, canon) {
